@@ -70,12 +70,299 @@ def normalise_program(trees: Dict[str, ast.Module], pkgs: Set[str]) -> None:
             _fold_constant_ifs(t)  # a flag parameter bound to True/False at the call site
     if inlined:
         _drop_dead_helpers(trees)
+    _inline_private_tables(trees)
     for t in trees.values():
+        _strip_casts(t)
+        _scalarize_records(t)
+        _while_true(t)
+        _next_sentinel(t)
         _return_temp(t)
         ast.fix_missing_locations(t)
 
 
 # ---------------------------------------------------------------------------
+
+EXHAUSTED = "__EXHAUSTED__"
+
+
+def _strip_casts(tree: ast.Module) -> None:
+    """typing.cast(T, x) is x."""
+    names = set()
+    for st in tree.body:
+        if isinstance(st, ast.ImportFrom) and st.module == "typing":
+            for a in st.names:
+                if a.name == "cast":
+                    names.add(a.asname or "cast")
+
+    class T(ast.NodeTransformer):
+        def visit_Call(self, node: ast.Call):
+            self.generic_visit(node)
+            f = node.func
+            if len(node.args) == 2 and not node.keywords and ((isinstance(f, ast.Name) and f.id in names) or (isinstance(f, ast.Attribute) and f.attr == "cast" and isinstance(f.value, ast.Name) and f.value.id == "typing")):
+                return node.args[1]
+            return node
+
+    T().visit(tree)
+
+
+def _next_sentinel(tree: ast.Module) -> None:
+    """try: X = next(IT) / except StopIteration: H   ==>   X = next(IT, __EXHAUSTED__) ; if X is __EXHAUSTED__: H
+    (one statement in the try body, one handler without a name, no else / finally): the exhausted stream becomes an ordinary branch."""
+    for holder in ast.walk(tree):
+        for fld in ("body", "orelse", "finalbody"):
+            body = getattr(holder, fld, None)
+            if not (isinstance(body, list) and body and isinstance(body[0], ast.stmt)):
+                continue
+            out: List[ast.stmt] = []
+            for st in body:
+                if (isinstance(st, ast.Try) and len(st.body) == 1 and len(st.handlers) == 1 and not st.orelse and not st.finalbody and st.handlers[0].name is None
+                        and isinstance(st.handlers[0].type, ast.Name) and st.handlers[0].type.id == "StopIteration"
+                        and isinstance(st.body[0], ast.Assign) and len(st.body[0].targets) == 1 and isinstance(st.body[0].targets[0], ast.Name)
+                        and isinstance(st.body[0].value, ast.Call) and isinstance(st.body[0].value.func, ast.Name) and st.body[0].value.func.id == "next"
+                        and len(st.body[0].value.args) == 1 and not st.body[0].value.keywords and isinstance(st.body[0].value.args[0], ast.Name)):
+                    a = st.body[0]
+                    x = a.targets[0].id
+                    call = ast.Call(func=ast.Name(id="next", ctx=ast.Load()), args=[a.value.args[0], ast.Name(id=EXHAUSTED, ctx=ast.Load())], keywords=[])
+                    na = ast.Assign(targets=[ast.Name(id=x, ctx=ast.Store())], value=call)
+                    test = ast.Compare(left=ast.Name(id=x, ctx=ast.Load()), ops=[ast.Is()], comparators=[ast.Name(id=EXHAUSTED, ctx=ast.Load())])
+                    ni = ast.If(test=test, body=st.handlers[0].body, orelse=[])
+                    for n_ in (na, ni):
+                        ast.copy_location(n_, st)
+                        ast.fix_missing_locations(n_)
+                    ni.lineno = st.handlers[0].lineno
+                    out.extend([na, ni])
+                else:
+                    out.append(st)
+            setattr(holder, fld, out)
+
+
+def _while_true(tree: ast.Module) -> None:
+    """while True: if C: return X / break ; REST   ==>   while not C: REST ; [return X]
+    (no other break in the loop, no else clause): the loop condition is where a `while` has it."""
+    def has_break(stmts) -> bool:
+        for x in stmts:
+            if isinstance(x, ast.Break):
+                return True
+            if isinstance(x, (ast.For, ast.While, ast.FunctionDef, ast.AsyncFunctionDef, ast.ClassDef)):
+                if isinstance(x, (ast.For, ast.While)) and has_break(x.orelse):
+                    return True
+                continue
+            for fld in ("body", "orelse", "finalbody"):
+                sub = getattr(x, fld, None)
+                if isinstance(sub, list) and sub and isinstance(sub[0], ast.stmt) and has_break(sub):
+                    return True
+            for hd in getattr(x, "handlers", []):
+                if has_break(hd.body):
+                    return True
+        return False
+
+    for holder in ast.walk(tree):
+        for fld in ("body", "orelse", "finalbody"):
+            body = getattr(holder, fld, None)
+            if not (isinstance(body, list) and body and isinstance(body[0], ast.stmt)):
+                continue
+            out: List[ast.stmt] = []
+            for st in body:
+                if (isinstance(st, ast.While) and isinstance(st.test, ast.Constant) and st.test.value is True and not st.orelse and st.body and isinstance(st.body[0], ast.If)
+                        and not st.body[0].orelse and len(st.body[0].body) == 1 and isinstance(st.body[0].body[0], (ast.Return, ast.Break)) and not has_break(st.body[1:])
+                        and len(st.body) > 1):
+                    first = st.body[0]
+                    test = first.test
+                    neg = test.operand if isinstance(test, ast.UnaryOp) and isinstance(test.op, ast.Not) else ast.UnaryOp(op=ast.Not(), operand=test)
+                    if isinstance(test, ast.Compare) and len(test.ops) == 1:
+                        flip = {ast.In: ast.NotIn, ast.NotIn: ast.In, ast.Is: ast.IsNot, ast.IsNot: ast.Is, ast.Eq: ast.NotEq, ast.NotEq: ast.Eq}
+                        if type(test.ops[0]) in flip:
+                            neg = ast.Compare(left=test.left, ops=[flip[type(test.ops[0])]()], comparators=test.comparators)
+                    ast.copy_location(neg, test)
+                    ast.fix_missing_locations(neg)
+                    nw = ast.While(test=neg, body=st.body[1:], orelse=[])
+                    ast.copy_location(nw, st)
+                    out.append(nw)
+                    if isinstance(first.body[0], ast.Return):
+                        out.append(first.body[0])
+                else:
+                    out.append(st)
+            setattr(holder, fld, out)
+
+
+def _record_classes(tree: ast.Module) -> Dict[str, List[str]]:
+    """Private NamedTuple classes of the module: name -> field names in order."""
+    out: Dict[str, List[str]] = {}
+    for st in tree.body:
+        if isinstance(st, ast.ClassDef) and st.name.startswith("_") and any((isinstance(b, ast.Name) and b.id == "NamedTuple") or (isinstance(b, ast.Attribute) and b.attr == "NamedTuple") for b in st.bases):
+            fields = [x.target.id for x in st.body if isinstance(x, ast.AnnAssign) and isinstance(x.target, ast.Name)]
+            if any(isinstance(x, ast.AnnAssign) and x.value is not None for x in st.body):
+                continue  # defaults: keep it simple
+            if any(isinstance(x, ast.FunctionDef) and x.name in ("__new__", "__init__", "__getattribute__", "__getattr__") for x in st.body):
+                continue
+            out[st.name] = fields
+    return out
+
+
+def _scalarize_records(tree: ast.Module) -> None:
+    """v = _Rec(a, b, c) (a private NamedTuple, plain names / constants as arguments) whose every other use is a field read `v.f` that the
+    assignment dominates: the field reads become the arguments and the record disappears."""
+    recs = _record_classes(tree)
+    if not recs:
+        return
+    for fn in [n for n in ast.walk(tree) if isinstance(n, ast.FunctionDef)]:
+        own = list(_own_nodes(fn))
+        stores: Dict[str, int] = {}
+        for n in own:
+            if isinstance(n, ast.Name) and isinstance(n.ctx, (ast.Store, ast.Del)):
+                stores[n.id] = stores.get(n.id, 0) + 1
+        params = set(_params_of(fn))
+
+        def find_blocks(stmts: List[ast.stmt], acc):
+            for i, st in enumerate(stmts):
+                acc.append((stmts, i, st))
+                if isinstance(st, (ast.FunctionDef, ast.AsyncFunctionDef, ast.ClassDef)):
+                    continue
+                for fld in ("body", "orelse", "finalbody"):
+                    sub = getattr(st, fld, None)
+                    if isinstance(sub, list) and sub and isinstance(sub[0], ast.stmt):
+                        find_blocks(sub, acc)
+                for hd in getattr(st, "handlers", []):
+                    find_blocks(hd.body, acc)
+
+        acc: List[Tuple[List[ast.stmt], int, ast.stmt]] = []
+        find_blocks(fn.body, acc)
+        for block, i, st in acc:
+            if not (isinstance(st, ast.Assign) and len(st.targets) == 1 and isinstance(st.targets[0], ast.Name) and isinstance(st.value, ast.Call)
+                    and isinstance(st.value.func, ast.Name) and st.value.func.id in recs):
+                continue
+            v = st.targets[0].id
+            fields = recs[st.value.func.id]
+            if stores.get(v, 0) != 1 or v in params or any(isinstance(a, ast.Starred) for a in st.value.args) or any(k.arg is None for k in st.value.keywords):
+                continue
+            vals: Dict[str, ast.expr] = {}
+            for f_, a in zip(fields, st.value.args):
+                vals[f_] = a
+            for k in st.value.keywords:
+                vals[k.arg] = k.value
+            if set(vals) != set(fields) or len(st.value.args) > len(fields):
+                continue
+            ok = True
+            for a in vals.values():
+                if isinstance(a, ast.Constant):
+                    continue
+                if isinstance(a, ast.Name) and ((a.id in params and stores.get(a.id, 0) == 0) or (a.id not in params and stores.get(a.id, 0) == 1)):
+                    continue
+                ok = False
+            if not ok:
+                continue
+            later = block[i + 1:]
+            inside = {id(n) for x in later for n in ast.walk(x)}
+            uses = [n for n in own if isinstance(n, ast.Name) and n.id == v and isinstance(n.ctx, ast.Load)]
+            if not uses or any(id(u) not in inside for u in uses):
+                continue
+            parents: Dict[int, ast.AST] = {}
+            for x in later:
+                for n in ast.walk(x):
+                    for c in ast.iter_child_nodes(n):
+                        parents[id(c)] = n
+            if not all(isinstance(parents.get(id(u)), ast.Attribute) and parents[id(u)].attr in vals and isinstance(parents[id(u)].ctx, ast.Load) for u in uses):
+                continue
+            # a nested function / lambda reading the record later would see later values of the arguments: they are single-store, so it is the same value
+            class Rep(ast.NodeTransformer):
+                def visit_Attribute(self, node: ast.Attribute):
+                    if isinstance(node.value, ast.Name) and node.value.id == v and isinstance(node.ctx, ast.Load) and node.attr in vals:
+                        return ast.copy_location(copy.deepcopy(vals[node.attr]), node)
+                    return self.generic_visit(node)
+
+            for j in range(i + 1, len(block)):
+                block[j] = Rep().visit(block[j])
+            block[i] = ast.copy_location(ast.Pass(), st)
+
+
+def _pure_literal(e: ast.AST) -> bool:
+    if isinstance(e, ast.Constant):
+        return True
+    if isinstance(e, (ast.Tuple, ast.List, ast.Set)):
+        return all(_pure_literal(x) for x in e.elts)
+    if isinstance(e, ast.Dict):
+        return all(k is not None and _pure_literal(k) and _pure_literal(v) for k, v in zip(e.keys, e.values))
+    if isinstance(e, ast.UnaryOp) and isinstance(e.op, ast.USub):
+        return _pure_literal(e.operand)
+    return False
+
+
+_MUTATING = {"append", "add", "update", "clear", "pop", "popitem", "setdefault", "extend", "insert", "remove", "discard", "sort", "reverse", "move_to_end", "__setitem__", "__delitem__"}
+
+
+def _inline_private_tables(trees: Dict[str, ast.Module]) -> None:
+    """A private module-level name bound once to a display of literals (dict / tuple / list / set), used only inside its own module and only in
+    ways that cannot change it or let it escape (`T.get(..)`, `T[..]`, `x in T`, `for x in T`, `len(T)`), is replaced by the display at its use sites."""
+    imported: Set[str] = set()
+    for t in trees.values():
+        for n in ast.walk(t):
+            if isinstance(n, ast.ImportFrom):
+                imported |= {a.name for a in n.names}
+    for m, t in trees.items():
+        cands: Dict[str, ast.AST] = {}
+        counts: Dict[str, int] = {}
+        for st in t.body:
+            tgt = None
+            if isinstance(st, ast.Assign) and len(st.targets) == 1 and isinstance(st.targets[0], ast.Name):
+                tgt, val = st.targets[0].id, st.value
+            elif isinstance(st, ast.AnnAssign) and isinstance(st.target, ast.Name) and st.value is not None:
+                tgt, val = st.target.id, st.value
+            if tgt is not None:
+                counts[tgt] = counts.get(tgt, 0) + 1
+                if tgt.startswith("_") and not tgt.startswith("__") and tgt not in imported and isinstance(val, (ast.Dict, ast.Tuple, ast.List, ast.Set)) and _pure_literal(val):
+                    cands[tgt] = val
+        cands = {k: v for k, v in cands.items() if counts.get(k) == 1}
+        if not cands:
+            continue
+        parents: Dict[int, ast.AST] = {}
+        for n in ast.walk(t):
+            for c in ast.iter_child_nodes(n):
+                parents[id(c)] = n
+        safe: Dict[str, List[ast.Name]] = {k: [] for k in cands}
+        for n in ast.walk(t):
+            if not (isinstance(n, ast.Name) and n.id in cands):
+                continue
+            par = parents.get(id(n))
+            if isinstance(n.ctx, ast.Store):
+                if not (isinstance(par, (ast.Assign, ast.AnnAssign)) and parents.get(id(par)) is t):
+                    safe.pop(n.id, None)
+                continue
+            ok = False
+            if isinstance(par, ast.Attribute) and par.value is n and par.attr in ("get", "keys", "values", "items", "index", "count") and isinstance(parents.get(id(par)), ast.Call) and parents[id(par)].func is par:
+                ok = True
+            elif isinstance(par, ast.Subscript) and par.value is n and isinstance(par.ctx, ast.Load):
+                ok = True
+            elif isinstance(par, ast.Compare) and n in par.comparators and all(isinstance(o, (ast.In, ast.NotIn)) for o in par.ops):
+                ok = True
+            elif isinstance(par, (ast.For, ast.comprehension)) and par.iter is n:
+                ok = True
+            elif isinstance(par, ast.Call) and isinstance(par.func, ast.Name) and par.func.id in ("len", "sorted", "tuple", "list", "set", "frozenset", "dict", "any", "all", "min", "max", "enumerate", "iter") and n in par.args:
+                ok = True
+            if ok and n.id in safe:
+                safe[n.id].append(n)
+            else:
+                safe.pop(n.id, None)
+        if any(isinstance(n, ast.Global) for n in ast.walk(t)):
+            for n in ast.walk(t):
+                if isinstance(n, ast.Global):
+                    for nm in n.names:
+                        safe.pop(nm, None)
+        for name, uses in safe.items():
+            if not uses:
+                continue
+            for u in uses:
+                par = parents[id(u)]
+                lit = copy.deepcopy(cands[name])
+                ast.copy_location(lit, u)
+                for sub in ast.walk(lit):
+                    ast.copy_location(sub, u)
+                for fld, val in ast.iter_fields(par):
+                    if val is u:
+                        setattr(par, fld, lit)
+                    elif isinstance(val, list):
+                        for i, x in enumerate(val):
+                            if x is u:
+                                val[i] = lit
 
 
 def _iso(tree: ast.Module) -> None:
@@ -264,10 +551,10 @@ class _Helper:
         return out
 
 
-def _eligible(fn: ast.FunctionDef, nested: bool = False) -> bool:
+def _eligible(fn: ast.FunctionDef, nested: bool = False, private_class: bool = False) -> bool:
     if fn.name in anchors():
         return False
-    if not nested and (not fn.name.startswith("_") or (fn.name.startswith("__") and fn.name.endswith("__"))):
+    if not nested and ((not fn.name.startswith("_") and not private_class) or (fn.name.startswith("__") and fn.name.endswith("__"))):
         return False
     a = fn.args
     if a.vararg or a.kwarg:
@@ -328,6 +615,45 @@ class _Subst(ast.NodeTransformer):
 
 
 _counter = [0]
+_bindcall: Dict[int, ast.Call] = {}
+_first_cache: Dict[Tuple[int, str], Optional["_Helper"]] = {}
+
+
+def _first_of(h: "_Helper", default: ast.Constant) -> Optional["_Helper"]:
+    key = (id(h.node), repr(default.value))
+    if key in _first_cache:
+        return _first_cache[key]
+    own = list(_own_nodes(h.node))
+    ok = not any(isinstance(n, (ast.YieldFrom, ast.Try, ast.With)) for n in own) and not any(isinstance(n, ast.Return) and n.value is not None for n in own)
+    ys = [n for n in own if isinstance(n, ast.Yield)]
+    ystm = [n for n in own if isinstance(n, ast.Expr) and isinstance(n.value, ast.Yield) and n.value.value is not None]
+    res = None
+    if ok and ys and len(ys) == len(ystm):
+        fn = copy.deepcopy(h.node)
+
+        class Y(ast.NodeTransformer):
+            def visit_FunctionDef(self, node):
+                return node if node is not fn else self.generic_visit(node)
+
+            def visit_Lambda(self, node):
+                return node
+
+            def visit_Expr(self, node: ast.Expr):
+                if isinstance(node.value, ast.Yield):
+                    return ast.copy_location(ast.Return(value=node.value.value), node)
+                return node
+
+            def visit_Return(self, node: ast.Return):
+                return ast.copy_location(ast.Return(value=copy.deepcopy(default)), node)
+
+        Y().visit(fn)
+        tail = ast.Return(value=copy.deepcopy(default))
+        ast.copy_location(tail, fn.body[-1])
+        fn.body.append(tail)
+        ast.fix_missing_locations(fn)
+        res = _Helper(fn, h.kind, h.cls, h.module, owner=h.owner)
+    _first_cache[key] = res
+    return res
 
 
 def _uses(fn_body: List[ast.stmt], name: str) -> int:
@@ -480,16 +806,103 @@ def _tail_convert(stmts: List[ast.stmt], sink) -> Optional[List[ast.stmt]]:
     return out
 
 
+def _user_breaks(stmts: List[ast.stmt]) -> bool:
+    """A break / continue-free check for the loop body at hand: a `break` that belongs to this loop (not to a loop nested in it)."""
+    for x in stmts:
+        if isinstance(x, ast.Break):
+            return True
+        if isinstance(x, (ast.For, ast.AsyncFor, ast.While)):
+            if _user_breaks(x.orelse):
+                return True
+            continue
+        if isinstance(x, (ast.FunctionDef, ast.AsyncFunctionDef, ast.ClassDef)):
+            continue
+        for fld in ("body", "orelse", "finalbody"):
+            sub = getattr(x, fld, None)
+            if isinstance(sub, list) and sub and isinstance(sub[0], ast.stmt) and _user_breaks(sub):
+                return True
+        for hd in getattr(x, "handlers", []):
+            if _user_breaks(hd.body):
+                return True
+    return False
+
+
+def _deliver_returns(stmts: List[ast.stmt], sink, in_loop: bool) -> Optional[List[ast.stmt]]:
+    """`return E` -> deliver E ; break.  A loop that contains such a return takes the statements that follow it into its `else:` clause
+    (they run exactly when the loop was not left by a return), followed by `continue` when an enclosing loop goes on, and is itself followed
+    by `break` - the for/else spelling of leaving several loops at once.  None when the shape does not allow it."""
+    out: List[ast.stmt] = []
+    for i, st in enumerate(stmts):
+        if isinstance(st, ast.Return):
+            out.extend(sink(st.value))
+            out.append(ast.copy_location(ast.Break(), st))
+            return out  # anything after a return is dead
+        if isinstance(st, (ast.FunctionDef, ast.AsyncFunctionDef, ast.ClassDef)) or not _has_return(st):
+            out.append(st)
+            continue
+        if isinstance(st, (ast.For, ast.AsyncFor, ast.While)):
+            if st.orelse or _user_breaks(st.body) or (isinstance(st, ast.While) and isinstance(st.test, ast.Constant)):
+                return None
+            body = _deliver_returns(st.body, sink, True)
+            rest = _deliver_returns(list(stmts[i + 1:]), sink, in_loop)
+            if body is None or rest is None:
+                return None
+            new = copy.copy(st)
+            new.body = body
+            if in_loop:
+                new.orelse = rest + ([] if _ends(rest) else [ast.copy_location(ast.Continue(), st)])
+                out.append(new)
+                out.append(ast.copy_location(ast.Break(), st))
+            else:
+                new.orelse = rest
+                out.append(new)
+            return out
+        if isinstance(st, ast.If):
+            # a return under a condition: both arms continue with the rest of the block
+            rest = list(stmts[i + 1:])
+            body = _deliver_returns(list(st.body) + ([] if _ends(st.body) else copy.deepcopy(rest)), sink, in_loop)
+            orelse = _deliver_returns(list(st.orelse) + ([] if (st.orelse and _ends(st.orelse)) else rest), sink, in_loop)
+            if body is None or orelse is None:
+                return None
+            new = copy.copy(st)
+            new.body = body or [ast.Pass()]
+            new.orelse = orelse
+            out.append(new)
+            return out
+        return None  # with / try around a return inside a loop nest: not attempted
+    return out
+
+
 def _once_convert(stmts: List[ast.stmt], sink, at: ast.AST) -> Optional[List[ast.stmt]]:
     """General fallback: the body runs inside a Once block, `return E` -> deliver E; break."""
     if _returns_in_loops(stmts):
-        return None
-    nb: List[ast.stmt] = []
-    for b in stmts:
-        r = _RetToBreak(sink).visit(b)
-        nb.extend(r if isinstance(r, list) else [r])
-    if not _ends(list(stmts)):
-        nb.extend(sink(None))
+        if any(isinstance(n, Once) for st in stmts for n in ast.walk(st)):
+            return None  # a break out of a nested Once would be mistaken for ours
+        nb = _deliver_returns(list(stmts), sink, False)
+        if nb is None:
+            return None
+        if not _ends(list(stmts)) and not any(isinstance(x, (ast.For, ast.AsyncFor, ast.While)) and _has_return(x) for x in stmts):
+            nb.extend(sink(None))
+        elif not _ends(list(stmts)):
+            # the statements after the first returning loop now live in its else clause: the fall-through value is delivered there
+            def add_tail(block: List[ast.stmt]) -> None:
+                for x in reversed(block):
+                    if isinstance(x, (ast.For, ast.AsyncFor, ast.While)) and x.orelse is not None and any(isinstance(n, ast.Break) for n in ast.walk(x)):
+                        if not _ends(x.orelse):
+                            if x.orelse and isinstance(x.orelse[-1], (ast.For, ast.AsyncFor, ast.While)):
+                                add_tail(x.orelse)
+                            else:
+                                x.orelse.extend(sink(None))
+                        return
+                    break
+            add_tail(nb)
+    else:
+        nb = []
+        for b in stmts:
+            r = _RetToBreak(sink).visit(b)
+            nb.extend(r if isinstance(r, list) else [r])
+        if not _ends(list(stmts)):
+            nb.extend(sink(None))
     o = Once(body=nb or [ast.Pass()])
     ast.copy_location(o, at)
     return [o]
@@ -501,8 +914,9 @@ def _collect_helpers(tree: ast.Module) -> Dict[Tuple[Optional[str], str], _Helpe
         if isinstance(st, ast.FunctionDef) and _eligible(st):
             out[(None, st.name)] = _Helper(st, "func", None, "")
         if isinstance(st, ast.ClassDef):
+            private_cls = st.name.startswith("_") and not st.name.startswith("__") and st.name not in anchors()
             for m in st.body:
-                if isinstance(m, ast.FunctionDef) and _eligible(m):
+                if isinstance(m, ast.FunctionDef) and _eligible(m, private_class=private_cls):
                     decos = [d.id for d in m.decorator_list if isinstance(d, ast.Name)]
                     kind = "static" if "staticmethod" in decos else ("class" if "classmethod" in decos else "method")
                     out[(st.name, m.name)] = _Helper(m, kind, st.name, "")
@@ -546,14 +960,59 @@ def _top_names(tree: ast.Module) -> Set[str]:
     return out
 
 
+def _local_types(fn: ast.FunctionDef, classes: Set[str]) -> Dict[str, str]:
+    """Locals whose every assignment is `x = C(...)`, and parameters annotated `C` / "C", for the classes of this module."""
+    out: Dict[str, Optional[str]] = {}
+    a = fn.args
+    for arg in a.posonlyargs + a.args + a.kwonlyargs:
+        ann = arg.annotation
+        nm = ann.id if isinstance(ann, ast.Name) else (ann.value if isinstance(ann, ast.Constant) and isinstance(ann.value, str) else None)
+        if nm in classes:
+            out[arg.arg] = nm
+    for n in _own_nodes(fn):
+        tgt = val = None
+        if isinstance(n, ast.Assign) and len(n.targets) == 1 and isinstance(n.targets[0], ast.Name):
+            tgt, val = n.targets[0].id, n.value
+        elif isinstance(n, ast.AnnAssign) and isinstance(n.target, ast.Name) and n.value is not None:
+            tgt, val = n.target.id, n.value
+        elif isinstance(n, (ast.For, ast.comprehension)):
+            for x in ast.walk(n.target):
+                if isinstance(x, ast.Name):
+                    out[x.id] = None
+            continue
+        elif isinstance(n, (ast.AugAssign,)) and isinstance(n.target, ast.Name):
+            out[n.target.id] = None
+            continue
+        elif isinstance(n, (ast.Assign,)):
+            for t in n.targets:
+                for x in ast.walk(t):
+                    if isinstance(x, ast.Name) and isinstance(x.ctx, ast.Store):
+                        out[x.id] = None
+            continue
+        elif isinstance(n, ast.withitem) and n.optional_vars is not None:
+            for x in ast.walk(n.optional_vars):
+                if isinstance(x, ast.Name):
+                    out[x.id] = None
+            continue
+        if tgt is None:
+            continue
+        c = val.func.id if isinstance(val, ast.Call) and isinstance(val.func, ast.Name) and val.func.id in classes else None
+        if tgt in out and out[tgt] != c:
+            out[tgt] = None
+        elif tgt not in out:
+            out[tgt] = c
+    return {k: v for k, v in out.items() if v is not None}
+
+
 class _Scope:
     """What a call inside one function may refer to."""
 
-    def __init__(self, by_name: Dict[str, _Helper], by_class: Dict[Tuple[str, str], _Helper], cls_name: Optional[str], self_names: Set[str]):
+    def __init__(self, by_name: Dict[str, _Helper], by_class: Dict[Tuple[str, str], _Helper], cls_name: Optional[str], self_names: Set[str], local_types: Optional[Dict[str, str]] = None):
         self.by_name = by_name
         self.by_class = by_class
         self.cls_name = cls_name
         self.self_names = self_names
+        self.local_types = local_types or {}  # local / parameter -> class it certainly is an instance of
 
     def match(self, call: ast.Call):
         f = call.func
@@ -573,6 +1032,10 @@ class _Scope:
                         return h, f.value
             # <local>._helper(...): a private method of this module called on some other instance (e.g. instance = cls(); instance._h(x)):
             # accepted when the name is unique among the module's private helpers
+            if base in self.local_types and base not in self.self_names:
+                h = self.by_class.get((self.local_types[base], f.attr))
+                if h is not None and h.kind == "method":
+                    return h, f.value
             cands = [h for (c, n), h in self.by_class.items() if n == f.attr and h.kind == "method"]
             if len(cands) == 1 and f.attr.startswith("_") and base not in self.self_names:
                 return cands[0], f.value
@@ -655,7 +1118,7 @@ def _inline_helpers(mod: str, tree: ast.Module, all_helpers, trees, pkgs: Set[st
             if nm in _locals_of(fn) or nm in _params_of(fn):
                 del names[nm]  # shadowed
         names.update(visible)
-        scope = _Scope(names, by_class, cls_name, self_names)
+        scope = _Scope(names, by_class, cls_name, self_names, _local_types(fn, {c for (c, _n) in by_class}))
         scope_locals: Set[str] = set(_locals_of(fn)) | set(_params_of(fn))
         for e in enclosing:
             scope_locals |= set(_locals_of(e)) | set(_params_of(e))
@@ -733,6 +1196,15 @@ def _inline_helpers(mod: str, tree: ast.Module, all_helpers, trees, pkgs: Set[st
                 h, recv = scope.match(e)
                 if h is not None and not h.is_expr and usable(h):
                     return h, recv
+                # next(gen_helper(..), <constant>): the first value the generator yields, else the constant - a function whose
+                # `yield E` is `return E` and whose end is `return <constant>`
+                if isinstance(e.func, ast.Name) and e.func.id == "next" and len(e.args) == 2 and not e.keywords and isinstance(e.args[1], ast.Constant) and isinstance(e.args[0], ast.Call):
+                    h, recv = scope.match(e.args[0])
+                    if h is not None and h.is_gen and usable(h):
+                        d = _first_of(h, e.args[1])
+                        if d is not None:
+                            _bindcall[id(e)] = e.args[0]
+                            return d, recv
             return None, None
 
         def hoist(st: ast.stmt) -> List[ast.stmt]:
@@ -768,6 +1240,8 @@ def _inline_helpers(mod: str, tree: ast.Module, all_helpers, trees, pkgs: Set[st
                 exprs = [(st, "value")]
             elif isinstance(st, ast.If):
                 exprs = [(st, "test")]
+            elif isinstance(st, ast.For):
+                exprs = [(st, "iter")]  # evaluated once, before the first iteration
             elif isinstance(st, ast.Delete) and len(st.targets) == 1 and isinstance(st.targets[0], ast.Subscript) and _simple(st.targets[0].value):
                 exprs = [(st.targets[0], "slice")]
             else:
@@ -800,6 +1274,83 @@ def _inline_helpers(mod: str, tree: ast.Module, all_helpers, trees, pkgs: Set[st
             ast.fix_missing_locations(pre)
             changed = True
             return [pre, st]
+
+        def _for_over_generator(st: ast.For, h: _Helper, recv) -> Optional[List[ast.stmt]]:
+            def binds_to_this_loop(stmts) -> bool:
+                # break / continue / return / yield that belong to the consuming loop (not to a loop nested in its body)
+                for x in stmts:
+                    if isinstance(x, (ast.Break, ast.Continue, ast.Return)):
+                        return True
+                    if isinstance(x, (ast.FunctionDef, ast.AsyncFunctionDef, ast.ClassDef)):
+                        continue
+                    if any(isinstance(n, (ast.Yield, ast.YieldFrom, ast.Return)) for n in ast.walk(x) if not isinstance(n, (ast.FunctionDef, ast.Lambda))):
+                        return True
+                    if isinstance(x, (ast.For, ast.While)):
+                        if binds_to_this_loop(x.orelse):
+                            return True
+                        continue
+                    for fld in ("body", "orelse", "finalbody"):
+                        sub = getattr(x, fld, None)
+                        if isinstance(sub, list) and sub and isinstance(sub[0], ast.stmt) and binds_to_this_loop(sub):
+                            return True
+                    for hd in getattr(x, "handlers", []):
+                        if binds_to_this_loop(hd.body):
+                            return True
+                return False
+
+            if binds_to_this_loop(st.body):
+                return None
+            own = list(_own_nodes(h.node))
+            if any(isinstance(n, (ast.Return, ast.YieldFrom, ast.Try, ast.With)) for n in own):
+                return None
+            yields = [n for n in own if isinstance(n, ast.Yield)]
+            stmts_y = [n for n in own if isinstance(n, ast.Expr) and isinstance(n.value, ast.Yield) and n.value.value is not None]
+            if not yields or len(yields) != len(stmts_y):
+                return None
+            b = h.bind(st.iter, recv)
+            if b is None:
+                return None
+            _counter[0] += 1
+            suffix = f"__inl{_counter[0]}"
+            pre: List[ast.stmt] = []
+            mapping: Dict[str, ast.expr] = {}
+            for p_, a in b.items():
+                if _simple(a) and p_ not in h.locals and not any(isinstance(n, ast.Name) and isinstance(n.ctx, ast.Store) and isinstance(a, ast.Name) and n.id == a.id for x in st.body for n in ast.walk(x)):
+                    mapping[p_] = a
+                else:
+                    tmp = p_ + suffix
+                    pre.append(ast.copy_location(ast.Assign(targets=[ast.Name(id=tmp, ctx=ast.Store())], value=copy.deepcopy(a)), st))
+                    mapping[p_] = ast.Name(id=tmp, ctx=ast.Load())
+            imported = {(a_.asname or a_.name).split(".")[0] for n_ in ast.walk(h.node) if isinstance(n_, (ast.Import, ast.ImportFrom)) for a_ in n_.names}
+            rename = {n: n + suffix for n in h.locals if n not in imported}
+            for p_ in b:
+                if p_ in h.locals:
+                    rename[p_] = p_ + suffix
+                    mapping.pop(p_, None)
+            body_copy = [_Subst(mapping, rename).visit(copy.deepcopy(x)) for x in h.body]
+
+            class Y(ast.NodeTransformer):
+                def visit_FunctionDef(self, node):
+                    return node
+
+                def visit_Lambda(self, node):
+                    return node
+
+                def visit_Expr(self, node: ast.Expr):
+                    if isinstance(node.value, ast.Yield):
+                        tgt = copy.deepcopy(st.target)
+                        for n in ast.walk(tgt):
+                            if isinstance(n, (ast.Name, ast.Tuple, ast.List, ast.Starred, ast.Attribute, ast.Subscript)) and hasattr(n, "ctx"):
+                                n.ctx = ast.Store()
+                        asg = ast.copy_location(ast.Assign(targets=[tgt], value=node.value.value), st)
+                        return [asg] + [copy.deepcopy(x) for x in st.body]
+                    return node
+
+            res: List[ast.stmt] = []
+            for x in body_copy:
+                r = Y().visit(x)
+                res.extend(r if isinstance(r, list) else [r])
+            return pre + res
 
         def rewrite_block(body: List[ast.stmt]) -> List[ast.stmt]:
             nonlocal changed
@@ -834,10 +1385,23 @@ def _inline_helpers(mod: str, tree: ast.Module, all_helpers, trees, pkgs: Set[st
                     call, mode = st.value, "annassign"
                 elif isinstance(st, ast.Return) and isinstance(st.value, ast.Call):
                     call, mode = st.value, "return"
+                if isinstance(st, ast.For) and not st.orelse and isinstance(st.iter, ast.Call) and guard < 50:
+                    # for X in gen_helper(..): BODY  ==>  the generator's body with every `yield E` replaced by `X = E; BODY`
+                    h, recv = stmt_helper_call(st.iter)
+                    conv = _for_over_generator(st, h, recv) if h is not None and h.is_gen else None
+                    if conv is not None:
+                        for x in conv:
+                            for sub_ in ast.walk(x):
+                                if isinstance(sub_, (ast.stmt, ast.expr, ast.ExceptHandler)) and not hasattr(sub_, "lineno"):
+                                    ast.copy_location(sub_, st)
+                        out.extend(rewrite_block(conv))
+                        guard += 1
+                        changed = True
+                        continue
                 if call is not None:
                     h, recv = stmt_helper_call(call)
                     if h is not None and (h.is_gen == (mode == "yieldfrom")):
-                        b = h.bind(call, recv)
+                        b = h.bind(_bindcall.get(id(call), call), recv)
                         if b is not None:
                             _counter[0] += 1
                             suffix = f"__inl{_counter[0]}"
